@@ -3,7 +3,10 @@ import itertools
 import hashlib
 import os.path
 import inspect
+import sys
 from importlib.machinery import SourceFileLoader
+from importlib.util import cache_from_source
+from types import ModuleType
 
 
 class CodeGenerator:
@@ -150,41 +153,70 @@ def unpack_impl(pkt, raw, offset, **k):
         # Full path for the new module
         module_pathname = os.path.join(folder, module_name + ".py")
 
-        # Try to import it first, if exists
-        module = None
-        if os.path.exists(module_pathname):
+        def load_generated_module():
+            # A module written by a process that died in the middle, or
+            # that is being rewritten right now by another process for
+            # a different packet class with the same name, is the same
+            # than no module at all.
+            sys.modules.pop(module_name, None)  # don't reuse a stale one
             try:
                 module = SourceFileLoader(module_name,
                                           module_pathname).load_module()
-            except ImportError:
-                pass
+            except Exception:
+                return None
+
+            if getattr(module, 'BISTURI_PACKET_COOKIE', None) != cookie:
+                return None
+
+            if self.generate_for_pack and not hasattr(module, 'pack_impl'):
+                return None
+
+            if self.generate_for_unpack and not hasattr(
+                module, 'unpack_impl'
+            ):
+                return None
+
+            return module
+
+        # Try to import it first, if exists
+        module = None
+        if os.path.exists(module_pathname):
+            module = load_generated_module()
 
         # If no previously written module exists or its cooke does not match
         # ours, recreate the file and reload it
-        if not module or getattr(
-            module, 'BISTURI_PACKET_COOKIE', None
-        ) != cookie:
+        if not module:
             # Delete the compiled file (.pyc)
-            if module and hasattr(module, '__cached__'):
-                module_compiled_filename = module.__cached__
-            else:
-                module_compiled_filename = module_name + ".pyc"
-
-            if os.path.exists(module_compiled_filename):
+            module_compiled_filename = cache_from_source(module_pathname)
+            try:
                 os.remove(module_compiled_filename)
+            except OSError:
+                pass
 
             # creates folder to host our generated code
             os.makedirs(folder, exist_ok=True)
 
-            with open(module_pathname, 'w') as module_file:
-                module_file.write(import_code)
-                module_file.write(cookie_code)
-                module_file.write(pack_code)
-                module_file.write(unpack_code)
+            # The cookie goes at the end: a truncated file never has it.
+            # Write the file aside and publish it atomically so nobody sees
+            # it half written.
+            module_code = import_code + pack_code + unpack_code + cookie_code
+            tmp_pathname = "%s.%i.tmp" % (module_pathname, os.getpid())
+            with open(tmp_pathname, 'w') as module_file:
+                module_file.write(module_code)
+
+            os.replace(tmp_pathname, module_pathname)
 
             # load it (again)
-            module = SourceFileLoader(module_name,
-                                      module_pathname).load_module()
+            module = load_generated_module()
+            if not module:
+                # Somebody else replaced our file in the meantime. Don't
+                # fight for it, run our code from memory.
+                module = ModuleType(module_name)
+                module.__file__ = module_pathname
+                exec(
+                    compile(module_code, module_pathname, 'exec'),
+                    module.__dict__
+                )
 
         from bisturi.packet import Packet
         if self.generate_for_pack and (
